@@ -273,6 +273,45 @@ pub proof fn lemma_tas_prefix<T: TargetInfoRead>(d: Seq<u8>, q: int, pool: PoolR
     ensures tas_size_to(d, q, a, k) == tas_size_to(d, q, b, k), tas_are_to(d, q, pool, a, k) == tas_are_to(d, q, pool, b, k),
     decreases k,
 { if k > 0 { lemma_tas_prefix(d, q, pool, a, b, k - 1); } }
+// inside Code: the target is resolved through the label table
+pub type TCAnnots = Seq<(TargetInfoCode, TypePath, FieldDescriptor, Pairs)>;
+pub open spec fn tc_size_at(d: Seq<u8>, off: int, x: (TargetInfoCode, TypePath, FieldDescriptor, Pairs)) -> int {
+    tgt_code_size(d, off) + path_size(d, off + tgt_code_size(d, off)) + 4 + pairs_size_to(x.3, x.3.len() as int)
+}
+pub open spec fn tcs_size_to(d: Seq<u8>, q: int, xs: TCAnnots, k: int) -> int decreases k {
+    if 0 < k <= xs.len() { tcs_size_to(d, q, xs, k - 1) + tc_size_at(d, q + tcs_size_to(d, q, xs, k - 1), xs[k - 1]) } else { 0 }
+}
+pub open spec fn tcs_are_to(d: Seq<u8>, q: int, pool: PoolRead, l: Labels, xs: TCAnnots, k: int) -> bool decreases k {
+    if 0 < k <= xs.len() {
+        let off = q + tcs_size_to(d, q, xs, k - 1);
+        let a = off + tgt_code_size(d, off) + path_size(d, off + tgt_code_size(d, off));
+        tcs_are_to(d, q, pool, l, xs, k - 1) && tgt_code_is(d, off, l, xs[k - 1].0) && path_is(d, off + tgt_code_size(d, off), xs[k - 1].1)
+        && desc_at(d, a, pool, xs[k - 1].2) && u16_at(d, a + 2) == xs[k - 1].3.len() && pairs_are_to(d, a + 4, pool, xs[k - 1].3, xs[k - 1].3.len() as int)
+    } else { true }
+}
+pub proof fn lemma_tcs_prefix(d: Seq<u8>, q: int, pool: PoolRead, l: Labels, a: TCAnnots, b: TCAnnots, k: int)
+    requires 0 <= k <= a.len(), k <= b.len(), forall|j: int| 0 <= j < k ==> a[j] == b[j],
+    ensures tcs_size_to(d, q, a, k) == tcs_size_to(d, q, b, k), tcs_are_to(d, q, pool, l, a, k) == tcs_are_to(d, q, pool, l, b, k),
+    decreases k,
+{ if k > 0 { lemma_tcs_prefix(d, q, pool, l, a, b, k - 1); } }
+pub proof fn lemma_tcs_stable(d: Seq<u8>, q: int, pool: PoolRead, l1: Labels, l2: Labels, xs: TCAnnots, k: int)
+    requires labels_kept(l1, l2), tcs_are_to(d, q, pool, l1, xs, k),
+    ensures tcs_are_to(d, q, pool, l2, xs, k),
+    decreases k,
+{
+    if 0 < k <= xs.len() {
+        lemma_tcs_stable(d, q, pool, l1, l2, xs, k - 1);
+        axiom_tgt_code_stable(d, q + tcs_size_to(d, q, xs, k - 1), l1, l2, xs[k - 1].0);
+    }
+}
+pub struct TVC { pub log: Ghost<TCAnnots> }
+pub struct TVCRes { pub log: Ghost<TCAnnots>, pub target: Ghost<TargetInfoCode>, pub path: Ghost<TypePath>, pub ty: Ghost<FieldDescriptor> }
+impl TVC {
+    #[verifier::external_body] pub fn visit_type_annotation(self, type_reference: TargetInfoCode, type_path: TypePath, annotation_descriptor: FieldDescriptor) -> (res: Result<(TVCRes, NV), VErr>)
+        ensures res matches Ok(p) ==> p.0.log@ == self.log@ && p.0.target@ == type_reference && p.0.path@ == type_path && p.0.ty@ == annotation_descriptor && p.1.log@ == Seq::<(JavaString, EvV)>::empty() { unimplemented!() }
+    #[verifier::external_body] pub fn finish_type_annotation(this: TVCRes, named_element_values_visitor: NV) -> (res: Result<TVC, VErr>)
+        ensures res matches Ok(r) ==> r.log@ == this.log@.push((this.target@, this.path@, this.ty@, named_element_values_visitor.log@)) { unimplemented!() }
+}
 // the suffix a visitor received during a call
 pub open spec fn grew_by<A>(before: Seq<A>, after: Seq<A>) -> Seq<A> { after.subrange(before.len() as int, after.len() as int) }
 pub open spec fn extends<A>(before: Seq<A>, after: Seq<A>) -> bool { before.len() <= after.len() && after.subrange(0, before.len() as int) =~= before }
@@ -392,4 +431,28 @@ def build(u):
              C('C01.annot.type-attribute.visitor-receives-target-path-type-and-pairs-of-every-encoded-type-annotation-in-order',
                f'res matches Ok(o) ==> extends({V0}, o.log@) && {NEWT}.len() == u16_at({D0}, {P0}) && tas_are_to::<T>({D0}, {P0} + 2, *pool, {NEWT}, {NEWT}.len() as int)'),
              C('C01.annot.type-attribute.consumes-exactly-the-encoded-type-annotations', f'res matches Ok(o) ==> final(reader).pos() == {P0} + 2 + tas_size_to::<T>({D0}, {P0} + 2, {NEWT}, {NEWT}.len() as int)'),
+         ])
+
+    # ---------------------------------------------------------------- the same inside Code (targets resolved through the label table)
+    curc = 'grew_by(log0, type_annotations_visitor.log@)'
+    NEWC = f'grew_by({V0}, o.log@)'
+    inv_c = (f'reader.data() == {D0} && 0 <= {P0} && num_annotations as int == u16_at({D0}, {P0}) && extends(log0, type_annotations_visitor.log@) && {curc}.len() == iter.index@ '
+             f'&& labels_kept(*old(labels), *labels) && tcs_are_to({D0}, {P0} + 2, *pool, *labels, {curc}, iter.index@ as int) '
+             f'&& reader.pos() == {P0} + 2 + tcs_size_to({D0}, {P0} + 2, {curc}, iter.index@ as int) && reader.pos() <= {D0}.len() && reader.pos() >= {P0} + 2')
+    step_c = (f'proof {{ let a = grew_by(log0, lg); let b = {curc}; let k = iter.index@ as int; assert(b =~= a.push(b[k])); lemma_tcs_prefix({D0}, {P0} + 2, *pool, lb, a, b, k); '
+              f'axiom_labels_kept(*old(labels), lb, *labels); lemma_tcs_stable({D0}, {P0} + 2, *pool, lb, *labels, b, k); '
+              f'lemma_pairs_size_nonneg(b[k].3, b[k].3.len() as int); assert(grew_by(Seq::<(JavaString, EvV)>::empty(), b[k].3) =~= b[k].3); assert(tcs_are_to({D0}, {P0} + 2, *pool, *labels, b, k + 1)); }}')
+    u.fn(R, 'read_type_annotations_attribute_code', ret='res',
+         sig_rewrites=[(r'fn read_type_annotations_attribute_code<A: TypeAnnotationsVisitor<TargetInfoCode>>\(', 'fn read_type_annotations_attribute_code<Rd: ClassRead>('),
+                       (r'reader: &mut impl ClassRead', 'reader: &mut Rd'), (r'mut type_annotations_visitor: A,', 'mut type_annotations_visitor: TVC,'), (r'-> Result<A', '-> Result<TVC')],
+         rewrites=[(r'for _ in 0\.\.num_annotations', 'for _i in iter: 0..num_annotations'), (r'\bTypeAnnotationsVisitor::finish_type_annotation', 'TVC::finish_type_annotation')],
+         requires=[f'0 <= {P0}'],
+         head_proof='let ghost log0 = type_annotations_visitor.log@; proof { axiom_labels_kept(*labels, *labels, *labels); }',
+         loops={0: dict(invariant=[C(f'C01.annot.type-attribute-code.inv.{i}', t) for i, t in enumerate(inv_c.split(' && '))],
+                        body_start='let ghost lg = type_annotations_visitor.log@; let ghost lb = *labels;', body_end=step_c)},
+         ensures=[
+             C('C01.annot.type-attribute-code.frame', KEEP + ' && (res.is_ok() ==> labels_kept(*old(labels), *final(labels)))'),
+             C('C01.annot.type-attribute-code.visitor-receives-target-path-type-and-pairs-of-every-encoded-type-annotation-in-order',
+               f'res matches Ok(o) ==> extends({V0}, o.log@) && {NEWC}.len() == u16_at({D0}, {P0}) && tcs_are_to({D0}, {P0} + 2, *pool, *final(labels), {NEWC}, {NEWC}.len() as int)'),
+             C('C01.annot.type-attribute-code.consumes-exactly-the-encoded-type-annotations', f'res matches Ok(o) ==> final(reader).pos() == {P0} + 2 + tcs_size_to({D0}, {P0} + 2, {NEWC}, {NEWC}.len() as int)'),
          ])
